@@ -12,6 +12,7 @@ package writecapnp
 //     0..4 drawn byte mutations (quick and thorough tier, reproducible by seed).
 
 import (
+	"encoding/hex"
 	"fmt"
 	"math"
 	"testing"
@@ -25,11 +26,13 @@ import (
 	"github.com/thanos-io/thanos/verifx/kit"
 )
 
-// Size caps of the decode-side oracle. The decoder re-reads the symbol blob once per tenant tuple and
-// Cap'n Proto charges every pointer dereference against a 64 MiB traversal limit, so an (aliasing or
-// zero-run-packed) message could legitimately run into that limit. The independent reader therefore works
-// under a 16 MiB limit, <= 256 elements per list and <= 64 KiB of symbol data: whatever it accepts costs
-// the decoder at most 16 MiB + 256 x 64 KiB = 32 MiB.
+// Size caps of the decode-side oracle. Cap'n Proto charges every pointer dereference against a 64 MiB
+// traversal limit (a void list is charged one word per element, so the charge is not bounded by the bytes
+// on the wire), and a message with aliased pointers or packed zero runs could legitimately run the decoder
+// into that limit. The independent reader therefore dereferences exactly the pointers the decoder
+// dereferences, with the same multiplicity (in particular the symbol table once per tenant tuple), under a
+// 16 MiB limit: whatever it accepts costs the decoder the same 16 MiB at most. The element / size caps
+// only keep single executions short.
 const (
 	c25MaxList      = 256
 	c25MaxSymData   = 1 << 16
@@ -241,9 +244,8 @@ func c25Walk(b []byte, packed, mixedIsMalformed bool) (out []c25DecTenant, why s
 	c25Must(err, "symbols")
 	var strs []string
 	for i, n := 0, c25Len(data.Len(), "data"); i < n; i++ {
-		if i == 0 {
-			strs = c25WalkSymbols(sym) // the decoder reads the symbols only when there is a tuple
-		}
+		// once per tuple, exactly like NewRequest: the traversal budget is charged per dereference
+		strs = c25WalkSymbols(sym)
 		tenant, err := data.At(i).Tenant()
 		c25Must(err, "tuple tenant")
 		list, err := data.At(i).TimeSeries()
@@ -384,6 +386,16 @@ func c25SeedCases() []c25Case {
 	return out
 }
 
+// c25TraversalRegression: found by the fuzz target against an earlier version of this oracle (a mistake of
+// the oracle, not of the decoder): 102 zero-sized tenant tuples and a symbol blob encoded as a void list of
+// 394758 elements; every NewRequest re-reads the blob, 102 x 3 MB exceeds the traversal limit. The
+// independent reader must classify it as "not asserted" (it hits its own, smaller limit).
+func c25TraversalRegression() []byte {
+	b, _ := hex.DecodeString("000000000d00000000000000000004000c000000000002000000000000000000303030303030303021000000300300001d000000303030001900000030000000" +
+		"303030303030303030303030303030303030303030303030303030303030303030303030303030303030303030303030")
+	return b
+}
+
 func FuzzVerifC25Decode(f *testing.F) {
 	mixedIsMalformed := kit.KnownFindings("C25")[sigC25MixedKinds]
 	for _, c := range c25SeedCases() {
@@ -394,6 +406,7 @@ func FuzzVerifC25Decode(f *testing.F) {
 		f.Add(b, c.Packed)
 	}
 	f.Add([]byte{}, false)
+	f.Add(c25TraversalRegression(), false)
 	f.Add([]byte{0, 0, 0, 0, 0, 0, 0, 0}, false)
 	f.Fuzz(func(t *testing.T, b []byte, packed bool) {
 		if len(b) > c25MaxFuzzInput {
@@ -419,6 +432,9 @@ func TestVerifC25_Decode(t *testing.T) {
 		if msg != "" || !wf {
 			rec.Violation(t, "seed %d: wellFormed=%v %s\ncase: %s", i, wf, msg, c25Render(c))
 		}
+	}
+	if msg, wf, _ := c25CheckBytes(c25TraversalRegression(), false, mixedIsMalformed); msg != "" || wf {
+		rec.Violation(t, "traversal-limit regression input: wellFormed=%v %s", wf, msg)
 	}
 	rec.Check(t, func(rt *rapid.T) {
 		g := &c25Gen{allowMixed: !known[sigC25MixedKinds], allowCustom: true}
